@@ -510,7 +510,10 @@ impl Run {
                 let ids = ["raw-a", "raw-b", "raw c", "raw\u{e9}"];
                 let id = ids[op["o"].as_u64().unwrap_or(0) as usize % ids.len()].to_string();
                 let mut p = Prng::new(op["seed"].as_u64().unwrap_or(0));
-                let val = json!({"n": p.below(3), "s": gen::gen_string(&mut p, self.gencfg)});
+                let val = match op.get("val").and_then(|v| v.as_u64()) {
+                    Some(v) => json!({"v": v}),
+                    None => json!({"n": p.below(3), "s": gen::gen_string(&mut p, self.gencfg)}),
+                };
                 let obj = val.as_object().unwrap().clone();
                 let m = &self.reps[r].as_ref().unwrap().melda;
                 let o2 = obj.clone();
